@@ -185,6 +185,11 @@ class SymEx:
                 return Sym(isnone, 0, "bool")
             if type(op) not in CMPOPS:
                 self.fail(node, "comparison operator")
+            if isinstance(op, (ast.Eq, ast.NotEq)):
+                lv, rv = self.ev(node.left), self.ev(node.comparators[0])
+                if isinstance(lv, str) and isinstance(rv, str):
+                    res = (lv == rv) == isinstance(op, ast.Eq)
+                    return Sym("true" if res else "false", 0, "bool")
             l, r = self.need_sym(node.left), self.need_sym(node.comparators[0])
             rank = max(l.rank, r.rank)
             return Sym.of(rank, lambda *ix: f"(decide ({self.bapp(l, ix)} {CMPOPS[type(op)]} {self.bapp(r, ix)}))", "bool")
@@ -278,6 +283,9 @@ class SymEx:
         if fn == "np.sqrt":
             x = self.need_sym(node.args[0])
             return Sym.of(x.rank, lambda *ix: f"(sqrtF {x.app(*ix)})")
+        if fn == "np.deg2rad" and len(node.args) == 1:
+            x = self.need_sym(node.args[0])
+            return Sym.of(x.rank, lambda *ix: f"({x.app(*ix)} * degToRad)").fresh()
         if fn == "np.float64" and len(node.args) == 1:
             return self.need_sym(node.args[0])
         if fn == "np.where" and len(node.args) == 3:
